@@ -364,7 +364,8 @@ def rules(chk, db):
     # argument's length are validated on the full 64-bit value, in the documented unit
     chk.rule('NR', 'no narrowing of a decoded count / length in any decoder', minimum=10)
     encrules.narrowing(chk, db, 'NR', {'ReadPayload', 'Read'})
-    encrules.read_rules(chk, db, want=('GRD',))
+    # ENS: a declared length / count reaches an allocation only after the reader confirmed that many bytes (no exception escapes dispatch)
+    encrules.read_rules(chk, db, want=('GRD', 'ENS'))
     # "the handler bound to the request's method selector": selectors are SipHash of the method name under the INTERFACE's hash, so
     # equal method names of different interfaces get different selectors (compile-time witnesses shared with C18)
     from . import c18
